@@ -431,7 +431,26 @@ class LogicalType(type):  # noqa
                             context.clear_tmp_error()
                             return val
 
-            # 4. try to transform in common mode
+            # 4. try to transform in common mode, first without the 'exclude' / 'preserve' policies:
+            # a condition that fits as it is comes before one that only "fits" by dropping or keeping what it cannot convert
+            options = context.options
+            if {options.invalid_items, options.invalid_keys, options.invalid_values} != {options.THROW}:
+                throw_options = utype.Options(
+                    invalid_items="throw", invalid_keys="throw", invalid_values="throw",
+                )
+
+                for con in cls.args:
+                    with context.enter(cls.combinator, options=throw_options) as new_context:
+                        try:
+                            # error isolation
+                            val = new_context.transformer(value, con)
+                        except Exception as e:
+                            context.collect_tmp_error(e)
+                        else:
+                            context.clear_tmp_error()
+                            return val
+
+            # 5. with the policies
             for con in cls.args:
                 with context.enter(cls.combinator) as new_context:
                     try:
